@@ -5,6 +5,8 @@ TRUSTED_BASE = [
     "axioms: at most propext, Classical.choice, Quot.sound (audited with #print axioms on every run)",
     "correspondence check: Rust harness (/verif/harness) running /repo's real crates vs the compiled Lean driver on the same op lines (differential testing, not proof)",
     "translator tools/extract_consts.py (regex extraction of constants/tables into BtcModel/Gen)",
+    "library behaviour modelled in Lean and validated by #guard vectors produced by the real libraries (trusted to be faithful beyond the vectors and the per-run cross-checks !codec / !json / !addr): SHA-256d, consensus codecs of transactions, headers and blocks, txid/ntxid/vsize, Address::from_script and Address::from_str + network check, String::from_utf8, serde_json::from_str::<Value>",
+    "given by the harness, not modelled: float-valued Block::difficulty, candid, ciborium + stable-memory layout across upgrades, ic-stable-structures (B-tree = ordered key set), ic-cdk / IC runtime (message atomicity, cycles, timers, outcalls)",
 ]
 
 HOOK_COMMITS = ["5384d917", "0f73256d", "53d65f90", "1047dece", "516900e7", "1a2a6d19"]
@@ -92,7 +94,7 @@ PROPS = {
     "C01": {
         "model_spec_ops": ["c ledgerat"],
         "spec_ops": ["c ledgerat"],
-        "extra_props": ["C01Reach", "InvPush", "InvIngest", "BlockCodec", "ReachAll", "FullSys", "FullSysExample"],
+        "extra_props": ["C01Reach", "InvPush", "InvIngest", "BlockCodec", "ReachAll", "FullSys", "FullSysExample", "AddrParse", "AddrParseExample"],
         "streams": [{"name": "ledger", "quick": 160, "thorough": 1600}, {"name": "sync", "quick": 64, "thorough": 800}],
         "rule": LEDGER_RULE,
         "explanation": "theorems: for every state satisfying the global invariant Inv (established by init, preserved by push of a transaction-valid block and by ingestion+pop: Props/InvPush, Props/InvIngest) "
@@ -105,7 +107,7 @@ PROPS = {
         "assumptions": ["Address::from_script and txid computation are library functions (given)"],
     },
     "C05": {
-        "extra_props": ["ReachAll", "FullSys", "FullSysExample"],
+        "extra_props": ["ReachAll", "FullSys", "FullSysExample", "AddrParse"],
         "spec_ops": ["c sumat"],
         "streams": [{"name": "ledger", "quick": 160, "thorough": 1600}, {"name": "sync", "quick": 64, "thorough": 800}],
         "rule": LEDGER_RULE,
@@ -213,6 +215,7 @@ PROPS = {
         "assumptions": [],
     },
     "C18": {
+        "extra_props": ["Json"],
         "model_spec_ops": ["t "],
         "spec_ops": [],
         "streams": [{"name": "tf", "quick": 800, "thorough": 20000}],
@@ -220,10 +223,10 @@ PROPS = {
                 "truncated JSON, invalid UTF-8, deep nesting, empty; text bodies (+N, N\\n, leading zeros/space, overflow, sign, letters); statuses 200/404/500/0/201/301/2^40; 0-2 headers. Distinct by the hash of the outcome vector.",
         "explanation": "theorems: no headers, status kept, body = [] or render(height) with height < 2^64, independent of headers, determined by the extracted path only (member order with distinct keys, other members, "
                        "whitespace via the parser), text endpoints accept exactly +?[0-9]+ < 2^64, render injective.",
-        "technique": "Lean 4 theorems over an abstract JSON value and a byte-level text parser + differential correspondence with the watchdog's transform_* queries",
-        "level_text": "Machine-checked canonical-form and invariance theorems for every endpoint, status, header list and body; serde_json/UTF-8 decoding enter as a parameter (the parsed value is supplied by the harness).",
-        "level_note": "PARTIAL by design: whitespace-insensitivity and 'never traps' of serde_json::from_str / String::from_utf8 are library behaviour outside the model; exercised by the stream. Trusted: Lean kernel, harness, watchdog::verif_hooks::transform.",
-        "assumptions": ["ParserWF: numbers the parser reports as u64 are < 2^64"],
+        "technique": "Lean 4 theorems over the byte-level model of String::from_utf8 + serde_json::from_str (Model/Json.lean, 1834 vectors from the real library) and of the ten transforms + differential correspondence with the watchdog's transform_* queries (the driver parses the body itself; serde_json's value is a cross-check)",
+        "level_text": "Machine-checked END TO END on body bytes: for every endpoint, status, header list and body the output has no headers, the same status and body = [] or the canonical {height:N|null}; invariant under headers, JSON whitespace, member order (distinct keys) and unrelated members, for every rendering of every JSON value within serde_json's recursion limit and float range (Props/Json.lean: transform_canonical, transform_whitespace_irrelevant, transform_member_order_irrelevant, transform_other_members_irrelevant, utf8Valid_iff).",
+        "level_note": "No longer partial: the parser is inside the model and C18's former assumption ParserWF is a theorem (parserWF_parseModel). Trusted: Btc.Json.parse = from_utf8 + serde_json::from_str::<Value> (1834 #guard vectors produced by the real library + every body of every run, marked !json on disagreement). Caveat proved, not assumed: a member nested deeper than 127 or a float literal out of f64 range anywhere empties the body.",
+        "assumptions": [],
     },
     "C19": {
         "extra_props": ["NetSpelling"],
@@ -241,7 +244,7 @@ PROPS = {
         "assumptions": ["payload elements are bytes (< 256)"],
     },
     "C14": {
-        "extra_props": ["NetSpelling", "FullCor", "FullCorExample", "HeaderSlots", "GuardTable"],
+        "extra_props": ["NetSpelling", "FullCor", "FullCorExample", "HeaderSlots", "GuardTable", "AddrParse"],
         "model_spec_ops": ["c q synced"],
         "spec_ops": ["c call"],
         "streams": [{"name": "sync", "quick": 160, "thorough": 3200}],
